@@ -28,7 +28,7 @@ type dumper struct {
 
 func skipType(t reflect.Type) bool {
 	p := t.PkgPath()
-	return p == "sync" || strings.HasSuffix(p, "zzverif/vsync") || strings.HasSuffix(p, "zzverif/vsched")
+	return p == "sync" || strings.HasSuffix(p, "shim/vsync") || strings.HasSuffix(p, "shim/vsched")
 }
 
 func (d *dumper) val(v reflect.Value, depth int) {
